@@ -1127,6 +1127,7 @@ func (req *Request) optimizeStatsGroups(stats []*Filter, renumber bool) []*Filte
 			case lastGroup.stringVal != firstFilter.stringVal:
 			case lastGroup.negate != firstFilter.negate:
 			case lastGroup.customTag != firstFilter.customTag:
+			case lastGroup.isEmpty != firstFilter.isEmpty:
 			case len(firstFilter.filter) != 0:
 			default:
 				lastGroup.filter = append(lastGroup.filter, removeFirstStatsFilter(stat))
